@@ -213,7 +213,8 @@ def esc2(ctx: Ctx) -> None:
     uvar = norm(uw[0].targets[0])
     for s in ast.walk(fn):
         if isinstance(s, ast.Call) and norm(s.func) in ("reversed", "iter", "list", "tuple") and s.args and norm(s.args[0]) == uvar:
-            gs = [norm(g) for g, pol in guards_of(mod, s, fn) if pol]
+            gs = [norm(g) for g, pol in guards_of(mod, s, fn) if pol] + [norm(g.operand) for g, pol in guards_of(mod, s, fn)
+                                                                         if not pol and isinstance(g, ast.UnaryOp) and isinstance(g.op, ast.Not)]
             if any(g.startswith(f"isinstance({uvar},") and "Sequence" in g for g in gs):
                 ctx.R.ok("ESC-2", f"extract_iter: {norm(s)} only under isinstance(..., Sequence)")
             else:
@@ -436,7 +437,21 @@ def snap(ctx: Ctx) -> None:
             ctx.R.fail("SNAP-7", mod, bad, f"when no exception-table entry covers the position the trusted stack depth must be 0, the code uses {norm(bad.value)}: slots above the valid stack of a running frame are dereferenced",
                        construct=f"handler_depth default {norm(bad.value)}")
         elif not consts:
-            ctx.R.fail("SNAP-7", mod, loop, "handler_depth has no default for positions that no exception-table entry covers", construct="handler_depth default missing")
+            # the lookup may live in a helper that returns the depth, and a constant when nothing covers the position
+            helper_ok = None
+            for st in hd_assigns:
+                if isinstance(st.value, ast.Call) and isinstance(st.value.func, ast.Name):
+                    hdef = [d for d in ast.walk(mod.tree) if isinstance(d, ast.FunctionDef) and d.name == st.value.func.id]
+                    if hdef:
+                        rets = [r for r in ast.walk(hdef[0]) if isinstance(r, ast.Return) and isinstance(r.value, (ast.Constant, ast.UnaryOp))]
+                        helper_ok = bool(rets) and all(norm(r.value) == "0" for r in rets)
+                        if rets and not helper_ok:
+                            ctx.R.fail("SNAP-7", mod, rets[0], f"when no exception-table entry covers the position the trusted stack depth must be 0, {hdef[0].name} returns {norm(rets[0].value)}",
+                                       construct=f"handler_depth default {norm(rets[0].value)}")
+            if helper_ok:
+                ctx.R.ok("SNAP-7", "handler_depth defaults to 0 when no entry covers the position (in a helper)")
+            elif helper_ok is None:
+                ctx.R.undecided("SNAP-7", "cannot find the default of handler_depth for positions that no exception-table entry covers")
         else:
             ctx.R.ok("SNAP-7", "handler_depth defaults to 0 when no entry covers the position")
         use = [st for st in ast.walk(tr) if isinstance(st, ast.Assign) and norm(st.targets[0]) == "stack_top_offset" and "handler_depth" in norm(st.value)]
